@@ -19,5 +19,18 @@ P == (MS(R.b) - SumMS(R.as, 1, Len(R.as))) % (2 * N)
 Tol == (IF R.l * R.bg <= 31 THEN R.n * 2^(31 - R.l * R.bg) ELSE 0) + 64 * R.n + 256
 RowFull == /\ WAbsLeq(WSub(R.ph, IF P < N THEN R.mu ELSE WNeg(R.mu)), WOfInt(Tol))
            /\ R.masknz = 0                               \* the accumulator stays trivial: the result does not depend on any key
-RowOK == CASE R.k = "full" -> RowFull [] OTHER -> FALSE
+\* ---- full-size external product (C09): TGSW = noiseless encryption of sgn * X^j, so the phase of the product under the key is sgn * X^j * phase(c), i.e.
+\* coefficient i is  +-phase(c)[i - j]  with the negacyclic wrap.  The analytic bound has three parts (units of 2^-32):
+\*  - decomposition: the bits below 2^-(l*Bgbit) of every coefficient of every polynomial of c are dropped (at most 2^(32 - l*Bgbit) units each, multiplied
+\*    by binary key polynomials: (k*N + 1) terms);
+\*  - TGSW row noise: a "noiseless" encryption computes b = a*s with the FFT, i.e. with RowEps = 2 units of rounding per coefficient, and the product
+\*    multiplies every row coefficient by a digit of magnitude at most Bg/2: (k+1)*l*N*(Bg/2)*RowEps;
+\*  - FFT rounding of the product itself (4096 units, which covers Bgbit = 16).
+\* The harness prints phase(c) at the source positions and phase(product) at the sampled positions; nothing else.
+RowEps == 2
+ExtTol == (IF R.l * R.bg <= 31 THEN (R.kk * N + 1) * 2^(32 - R.l * R.bg) ELSE 0) + (R.kk + 1) * R.l * N * 2^(R.bg - 1) * RowEps + 4096
+ExtWant(u) == LET ps == R.pos[u] w == Wd(R.pc[u]) wrap == IF ps - R.j < 0 THEN -1 ELSE 1 IN IF R.sgn * wrap = 1 THEN w ELSE WNeg(w)
+RowExtFull == /\ R.l * R.bg <= 32 /\ R.l * R.bg >= 16 /\ R.bg <= 16 /\ (R.kk + 1) * R.l <= 16                 \* (the tolerance stays below 2^29 for the layouts used)
+              /\ \A u \in 1..Len(R.pos) : WAbsLeq(WSub(Wd(R.pr[u]), ExtWant(u)), WOfInt(ExtTol))
+RowOK == CASE R.k = "full" -> RowFull [] R.k = "extfull" -> RowExtFull [] OTHER -> FALSE
 =============================================================================
